@@ -32,6 +32,9 @@ func classifyExecErr(err error) string {
 		if strings.Contains(msg, "cannot resolve expressions") {
 			cls = append(cls, "evalFailed")
 		}
+		if strings.Contains(msg, "does not match its schema") {
+			cls = append(cls, "invalidStageInput")
+		}
 		if len(cls) == 0 {
 			return "multiple"
 		}
@@ -48,6 +51,8 @@ func classifyExecErr(err error) string {
 		return "evalFailed"
 	case strings.HasPrefix(msg, "invalid workflow input"):
 		return "invalidInput"
+	case strings.Contains(msg, "does not match its schema") && strings.HasPrefix(msg, "the data evaluated for"):
+		return "invalidStageInput"
 	case strings.Contains(msg, "bug:"):
 		return "bug"
 	case strings.Contains(msg, "workflow execution aborted"):
